@@ -209,6 +209,27 @@ def virtual_cases(draw):
                 T2 = ["list", subT]
             w["gen"]["wrong"] = gen.canonical(T2, [])
             w["declare_form"] = True
+            if draw(st.booleans()):
+                # a declared form that differs from the generated array in a parameter only (record name): must be refused as well
+                # (added after the seeded change C18-b - generate_and_check no longer comparing parameters - was missed)
+                import copy
+                alt = copy.deepcopy(D.strip_virtual(sub))
+                recs = []
+
+                def walk(n):
+                    if n["class"] == "RecordArray":
+                        recs.append(n)
+                    if "content" in n:
+                        walk(n["content"])
+                    for c in n.get("contents", []):
+                        walk(c)
+                walk(alt)
+                if recs:
+                    r = recs[draw(st.integers(0, len(recs) - 1))]
+                    pars = dict(r.get("parameters") or {})
+                    pars["__record__"] = (pars.get("__record__") or "") + "Other"
+                    r["parameters"] = pars
+                    w["gen"]["wrong"] = alt
         wraps.append(w)
     if ckind == "broken":
         if wraps[0]["gen"]["kind"] in BAD_GENERATORS:
@@ -350,7 +371,23 @@ def known_ellipsis_newaxis_through_virtual_record(case, vio):
     return both and record_below_inner_wrapper
 
 
-KNOWN = {"virtual_generated_longer_than_declared": known_length_longer,
+def known_repartition_unmergeable_parameters(case, vio):
+    """C08's finding merge_parameters_compared_first seen through ak.repartition: pieces whose string/record node sits behind an
+    IndexedArray in one piece and not in another are 'not mergeable', the merged partition becomes a union and ak.type raises
+    'inconsistent types in PartitionedArray'"""
+    if case.get("part") not in ("ppartition", "partition"):
+        return False
+    text = vio.get("message", "") + str(vio.get("observed", ""))
+    if "inconsistent types in PartitionedArray" not in text:
+        return False
+
+    def wrapped_parameterised(n):
+        return n["class"] in ("IndexedArray32", "IndexedArrayU32", "IndexedArray64") and bool(n["content"].get("parameters"))
+    return any(K.any_node(p if "class" in p else p.get("generates", p), wrapped_parameterised) for p in case.get("pieces", []))
+
+
+KNOWN = {"repartition_unmergeable_parameters": known_repartition_unmergeable_parameters,
+         "virtual_generated_longer_than_declared": known_length_longer,
          "virtual_record_ellipsis_newaxis": known_ellipsis_newaxis_through_virtual_record,
          "virtual_range_form_bitmasked": known_bitmasked_range_form,
          "virtual_slice_form_nested_virtual": known_nested_virtual_slice_form}
@@ -628,6 +665,11 @@ def _run_virtual(case, run):
             except M.Invalid:
                 tags.append("step:eager_source_unevaluable")
                 continue
+        if op == "reduce" and ("'string'" in repr(M.decode(srcdesc)[0]) or "'bytes'" in repr(M.decode(srcdesc)[0])):
+            # reducers are defined on numeric leaves (C02 and C03 make the same restriction): on strings the library reduces the
+            # characters and, with missing strings, returns uninitialised positions that differ from run to run
+            tags.append("step_skipped:reduce_on_strings")
+            continue
         if op in ("reduce", "sort", "argsort") and nested_strings(srcdesc):
             # the non-local reduce/sort machinery overflows its buffers on the EAGER twin for strings below two list levels (the crash
             # family of reduce_nonlocal_deep / sort_nonlocal_deep, whose predicates count levels without the string's own): not run
